@@ -148,16 +148,31 @@ mod misc {
                 ));
             };
 
-            let loop_index = seq_count / num_elements;
-            let iteration_index = seq_count % num_elements;
+            let (loop_index, iteration_index) = match (
+                seq_count.checked_div(num_elements),
+                seq_count.checked_rem(num_elements),
+            ) {
+                (Some(loop_index), Some(iteration_index)) if num_elements > 0 => {
+                    (loop_index, iteration_index)
+                }
+                _ => {
+                    return Err(StoryError::InvalidStoryState(
+                        "Invalid number of elements in sequence for shuffle index".to_owned(),
+                    ));
+                }
+            };
 
             // Generate the same shuffle based on:
             // - The hash of this container, to make sure it's consistent each time the
             //   runtime returns to the sequence
             // - How many times the runtime has looped around this full shuffle
             let seq_path_str = Object::get_path(seq_container.as_ref()).to_string();
-            let sequence_hash: i32 = seq_path_str.chars().map(|c| c as i32).sum();
-            let random_seed = sequence_hash + loop_index + self.get_state().story_seed;
+            let sequence_hash: i32 = seq_path_str
+                .chars()
+                .fold(0i32, |hash, c| hash.wrapping_add(c as i32));
+            let random_seed = sequence_hash
+                .wrapping_add(loop_index)
+                .wrapping_add(self.get_state().story_seed);
 
             let mut rng = StdRng::seed_from_u64(random_seed as u64);
 
